@@ -19,7 +19,7 @@ OBLIGATIONS = ['PGA.Scheme.' + t for t in [
     'C03_cnt_relabel', 'C03_centres_relabel', 'C03_groupName_relabel', 'C03_groupCount_relabel',
     'C03_distinctSets_relabel', 'C03_remap_depends_on_counts_only', 'C03_descriptors_relabel']] + ['PGA.C03.' + t for t in [
     'C03_aromatize_ring_equiv', 'C03_aromatize_rings_equiv', 'C03_aromatize_rotation_reflection',
-    'C03_aromatize_order_partial', 'C03_aromatize_order_full_fails', 'C03_aromatize_relabel', 'C03_relabel_wf', 'C03_embeds_relabel',
+    'C03_aromatize_order_partial', 'C03_aromatize_order_full_fails', 'C03_aromatize_update_literal', 'C03_aromatize_relabel', 'C03_relabel_wf', 'C03_embeds_relabel',
     'C03_decompose_relabel']]
 RULE = ('cases = (scheme, molecule, spelling): every molecule of the fixed pools and grown molecules, each written in several '
         'ways (random atom order incl. branch order and ring-closure choices, explicit vs implicit H, Kekule vs aromatic, '
